@@ -10,6 +10,8 @@
  * MODE 5: owner (queue at lower boundary, pre-filled a) put b (re-centres), pop    | thief take
  * MODE 6: owner (pre-filled a) pop            | other worker trypass b, take
  * MODE 9: owner (queue at lower boundary, pre-filled a) pop | other worker trypass b (must be refused or really stored), take
+ * MODE 10: owner (pre-filled a,b,c) pop (fast path) | thief take, take, take   (the Dekker window of the fast path: a duplicate needs three steals while
+ *          the owner's top-- is still in its store buffer; this is the scenario in which the fence in pop matters)
  * MODE 7: owner (pre-filled a,b) pop          | thief peek (hint is NULL or a descriptor that was in the queue), take */
 #ifndef MODE
 #define MODE 0
@@ -39,6 +41,8 @@ void verif_init(void){
   Q.size = CAP; Q.ptr = SLOTS; Q.base = CAP / 2; Q.top = CAP / 2; Q.lock.locked = 0;
 #if MODE == 0
   SLOTS[CAP/2] = &TA; SLOTS[CAP/2 + 1] = &TB; Q.top = CAP/2 + 2; inserted = 2;
+#elif MODE == 10
+  SLOTS[CAP/2] = &TA; SLOTS[CAP/2 + 1] = &TB; SLOTS[CAP/2 + 2] = &TC; Q.top = CAP/2 + 3; inserted = 3;
 #elif MODE == 3 || MODE == 6
   SLOTS[CAP/2] = &TA; Q.top = CAP/2 + 1; inserted = 1;
 #elif MODE == 7
@@ -53,6 +57,10 @@ void verif_init(void){
 void t0(void){ obtained(myth_queue_pop(&Q)); obtained(myth_queue_pop(&Q)); }
 void t1(void){ obtained(myth_queue_take(&Q)); }
 #define INS 2
+#elif MODE == 10
+void t0(void){ obtained(myth_queue_pop(&Q)); }
+void t1(void){ obtained(myth_queue_take(&Q)); obtained(myth_queue_take(&Q)); obtained(myth_queue_take(&Q)); }
+#define INS 3
 #elif MODE == 8
 void t0(void){ myth_queue_push(&Q, &TA); obtained(myth_queue_pop(&Q)); }
 void t1(void){ obtained(myth_queue_take(&Q)); }
